@@ -370,7 +370,10 @@ class Polygon(Shape2D):
         # axis theorem can be applied in the reverse direction (rotating about
         # the origin before translating to the actual centroid).
         original_center = self.center.copy()
-        original_vertices = self._vertices.copy()
+        # Work on a copy: the array bound to _vertices may have been handed out
+        # through the vertices property and must not be moved in place.
+        original_vertices = self._vertices
+        self._vertices = original_vertices.copy()
         original_normal = self._normal.copy()
 
         self.center = (0, 0, 0)
@@ -385,7 +388,6 @@ class Polygon(Shape2D):
             original_center, rotate_order2_tensor(mat.T, inertia_tensor), self.area
         )
 
-        self.center = original_center
         self._vertices = original_vertices
         self._normal = original_normal
 
